@@ -1,5 +1,5 @@
 # Source of truth for MANIFEST.json (regenerate with: python3 tools/mkmanifest.py)
-HOOK_COMMITS = ["0b048fb"]
+HOOK_COMMITS = ["0b048fb", "fe520f6"]
 ENGINES = [
     {"name": "check.py", "path": "/verif/tools/check.py", "serves_properties": [],
      "kind_free_text": "driver: TLC on spec/, Go overlay harness on /repo, TLC monitors on recorded traces"},
@@ -27,6 +27,25 @@ _topic("C06", "Monitors: exactly one effective owner in the store after every st
 _topic("C07", "Monitors: given changes only by approver/owner (or admin self-raise without O/D, or the strip at transfer), want only by its user, invitations need sharer (default access unless admin), re-subscription restores the previous grant, first subscription gets the default grant, subscriber limit, no attachment without J in given.")
 _topic("C08", "Monitors: at the step where it first breaks, every live-topic field (ids, default access, subscribers, permissions, marks, owner) equals what a reload would compute from the rows; a request answered with an error leaves the store unchanged. Reload (idle unload through the real timer + re-subscribe) is part of the generated behaviours.")
 _topic("C09", "Monitors: 0<=read<=recv<=last id in store and live topic (reported where first broken), marks never decrease, marks move only by the user's own publish or note with R, notes are never answered.")
+
+CLAIMED["C12"] = dict(
+    category="model_checking",
+    text="TLC exhausts the as-intended Auth models (token verdict function with attacker-chosen fields/signatures, reset-code automaton over all right/wrong/issue sequences, basic-auth account table over case families, API-key classes) and then evaluates the property monitors (Monitor_C12.tla) on outcomes recorded from the REAL authenticators: every single-bit flip / truncation / extension / splice / foreign key / other serial / expiry of real tokens (also through authHttpRequest), TLC-generated guess sequences against the real code authenticator over the in-memory persistent cache, login case families against the real basic authenticator (bcrypt), API-key byte-string classes against checkAPIKey with keys from the real keygen.",
+    note="Trusted: HMAC-SHA256 and bcrypt (a signature is an injective function of key and bytes); memadp for auth records and persistent cache; concurrent guesses against one code and store faults during the attempt counter update are not explored.",
+    technique="TLA+ Auth models checked by TLC; TLC-generated sequences + enumerated mutation classes run on the real authenticators; TLC-evaluated monitors on recorded outcomes",
+)
+CLAIMED["C18"] = dict(
+    category="fault_enumeration",
+    text="TLC exhausts the transaction machine (Tx.tla/TxCore.tla: every statement program up to 3-4 statements x every failing position x fault kind, both database/sql and pgx semantics, plus the concrete program table of all 20 transactional adapter methods) and then checks every statement/transaction trace recorded from the REAL MySQL and PostgreSQL adapters (fake database/sql driver; fake PostgreSQL backend on pgproto3) with one fault injected at every round trip (BEGIN, PREPARE, each statement, COMMIT; error, connection loss, result-set error, deadline) for every branch of every transactional method, and the store-level compositions Users.Create / Topics.Create / Messages.DeleteList: failing statement => ROLLBACK and no COMMIT, error returned, no transaction left open, no write outside BEGIN..COMMIT. Exhaustive over operations x fault positions: the quantifier of the property.",
+    note="Trusted: the database honours BEGIN/COMMIT/ROLLBACK (effects inside a transaction are not executed: no SQL engine offline); the fake drivers' canned results steer each branch; MongoDB/RethinkDB adapters are outside the claim.",
+    technique="TLA+ transaction machine checked by TLC; single-fault enumeration over the real SQL adapters through fake drivers; TLC-evaluated monitors + program conformance on recorded statement traces",
+)
+CLAIMED["C19"] = dict(
+    category="model_checking",
+    text="TLC checks Impl(q) = Sem(q) (transcribed parseSearchQuery automaton vs. declarative grammar) for ALL strings up to length 5-10 over three small alphabets, the laws of the grammar, and the tag state machine (immutable/masked namespaces x {set tags} sequences); the Go recorder runs the REAL parseSearchQuery / rewriteTag / normalizeTags / restrictedTagsEqual / filterRestrictedTags / Topic.replySetTags / fnd query handler on the same exhaustive domains (real e-mail, phone validators and basic authenticator), and TLC evaluates the property monitors and the Impl-conformance on every recorded vector.",
+    note="Trusted: libphonenumber is tabulated for two numbers; adapter-side FindUsers/FindTopics honouring activeOnly is not executed (the argument reaching the store is checked); runes outside the modelled alphabets are covered only by seeded random strings.",
+    technique="TLA+ reference semantics + transcribed automaton checked by TLC; exhaustive short-string enumeration through the real functions; TLC-evaluated monitors on recorded vectors",
+)
 
 _ALL = ["C%02d" % i for i in range(1, 21)]
 NOT_APPLICABLE = {p: "check not built yet in this round (work in progress; the technique applies, see DESIGN.md §5)" for p in _ALL if p not in CLAIMED}
